@@ -163,6 +163,23 @@ class FakeWriter:
         return ('127.0.0.1', 1)
 
 
+class FakeReader:
+    """the receiving half of an accepted socket: hands out the prepared bytes, then nothing more arrives"""
+
+    def __init__(self, data=b''):
+        self.buf = bytearray(data)
+
+    async def readexactly(self, n):
+        if len(self.buf) < n:
+            await asyncio.get_running_loop().create_future()      # no more data: the read stays pending
+        out = bytes(self.buf[:n])
+        del self.buf[:n]
+        return out
+
+    async def read(self, n=-1):
+        return await self.readexactly(n)
+
+
 def _identity(message):
     return message
 
@@ -221,6 +238,51 @@ class World:
 
     def frames(self, conn):
         return conn.fake_writer.frames
+
+    def accept_incoming(self, username, typ=PeerConnectionType.DISTRIBUTED, hang_from=0):
+        """a peer connects to our listening port and sends PeerInit: the REAL ListeningConnection.accept ->
+        Network.on_peer_accepted (reads and decodes the init message from the socket) -> _finalize_peer_connection ->
+        PeerInitializedEvent(requested=False) -> ... -> set_state(CONNECTED) after the callback returned.  The
+        connection object is created by accept(); its state evolves exactly as the real code sets it.
+        `hang_from` = n > 0: the peer's socket stops draining from the n-th frame we write to it.
+        Returns (connection, task running accept)."""
+        import aioslsk.network.connection as conn_mod
+        from aioslsk.network.connection import ListeningConnection
+        from aioslsk.protocol.messages import PeerInit
+        symbolic = self.c.symbolic
+        init = PeerInit.Request(username, typ, 0)
+        wire = PeerInit.Request('placeholder', typ, 0).serialize() if symbolic else init.serialize()
+        writer = FakeWriter(decoder=None if symbolic else DistributedMessage.deserialize_request)
+        writer.hang_drain = hang_from > 0
+        writer.hang_from = hang_from
+        reader = FakeReader(wire)
+        made = []
+        real_cls = conn_mod.PeerConnection
+
+        def factory(*a, **kw):
+            # accept() builds the connection itself; the harness only needs a handle on it.  Symbolic runs: the codec
+            # boundary is the identity in both directions (the wire carries a placeholder name, the decoded object the token)
+            conn_mod.__dict__['PeerConnection'] = real_cls
+            conn = real_cls(*a, **kw)
+            conn.fake_writer = writer
+            if symbolic:
+                conn.encode_message_data = _identity
+                conn.decode_message_data = lambda data: init
+            made.append(conn)
+            return conn
+
+        if not hasattr(self, 'listening'):
+            self.listening = ListeningConnection('0.0.0.0', 2234, self.net)
+            self.listening.state = ConnectionState.CONNECTED
+        conn_mod.__dict__['PeerConnection'] = factory
+        try:
+            task = self.run(self.listening.accept(reader, writer))
+        finally:
+            conn_mod.__dict__['PeerConnection'] = real_cls
+        if len(made) != 1:
+            raise symex.HarnessError('accept() did not create exactly one connection')
+        self.conns.append(made[0])
+        return made[0], task
 
     async def _create_peer_connection(self, username, typ, ip=None, port=None, obfuscate=False):
         fut = asyncio.get_running_loop().create_future()
